@@ -126,6 +126,18 @@ func bigUidFrame(uid uint64, seq byte, sys byte) []byte {
 	return ref.Serialize(s)
 }
 
+// uidFrameUntruncated is a v2 frame of message 5000 whose sender did not strip the trailing zero bytes of the payload
+// (legal); damaged: with a checksum that is wrong for it.
+func uidFrameUntruncated(uid uint64, seq byte, sys byte, damaged bool) []byte {
+	val := &MessageVfUid{Uid: uid, Kind: 1}
+	s := &ref.FrameSpec{Version: 2, Seq: seq, Sys: sys, Comp: 1, MsgID: 5000, Payload: uidLayout.EncodeFull(reflect.ValueOf(val), true)}
+	ref.Seal(s, uidLayout.CRCExtra, nil)
+	if damaged {
+		s.Checksum ^= 0x0180
+	}
+	return ref.Serialize(s)
+}
+
 func uidOf(m message.Message) (uint64, bool) {
 	switch x := m.(type) {
 	case *MessageVfUid:
